@@ -173,6 +173,8 @@ def check(chk):
             if isinstance(st, ast.Assign) and isinstance(st.targets[0], ast.Tuple) and isinstance(st.value, ast.Tuple):
                 for t, v in zip(st.targets[0].elts, st.value.elts):
                     binds[src(t)] = src(v).split('.')[-1]
+            elif isinstance(st, ast.Assign) and len(st.targets) == 1 and isinstance(st.targets[0], ast.Name) and isinstance(st.value, ast.Attribute):
+                binds[st.targets[0].id] = st.value.attr
         order_ok = [binds.get(n, n.split('.')[-1]) for n in names] == ['months', 'days', 'nanoseconds']
     chk.judge(order_ok, 'C02.const', W, 'duration writer: vints of months, days, nanoseconds', 'duration fields are not written in months, days, nanoseconds order')
     ru = [st for st in body_walk(R) if isinstance(st, ast.Assign) and isinstance(st.value, ast.Call) and (chain(st.value.func) or ('',))[-1] == 'vints_unpack']
